@@ -88,6 +88,10 @@ func (e svcError) Error() string  { return e.msg }
 func (e svcError) ErrorCode() int { return -32000 }
 
 func (s *service) Ret() string { return retVal }
+
+// Subscription is an ordinary method whose RPC name ("t_subscription") ends in the suffix that marks
+// subscription notifications on the client side; as a call it must be answered like any other.
+func (s *service) Subscription() string { return retVal }
 func (s *service) Big() string { return bigVal }
 func (s *service) Err() error  { return svcError{errMsg} }
 
@@ -194,6 +198,8 @@ func entryJSON(e map[string]any, tag int, variant int) string {
 	switch e["m"].(string) {
 	case "ret":
 		meth = "t_ret"
+	case "nsub":
+		meth = "t_subscription"
 	case "big":
 		meth = "t_big"
 	case "err":
